@@ -99,6 +99,11 @@ type Rig struct {
 // NewRig builds cluster info, host and pool exactly as the cluster manager does (registered pool
 // factory of the protocol), against a fresh upstream.
 func NewRig(kind Kind, maxConn, maxReq uint32) (*Rig, error) {
+	return NewRigConnectTimeout(kind, maxConn, maxReq, 0)
+}
+
+// NewRigConnectTimeout is NewRig with the cluster's connect_timeout set (0: MOSN's default of 10 s).
+func NewRigConnectTimeout(kind Kind, maxConn, maxReq uint32, connectTimeout time.Duration) (*Rig, error) {
 	Register()
 	upProto := "bolt"
 	if kind == HTTP1 {
@@ -112,6 +117,9 @@ func NewRig(kind Kind, maxConn, maxReq uint32) (*Rig, error) {
 	cc := v2.Cluster{Name: fmt.Sprintf("verif-c09-%s-%d", kind, n), ClusterType: v2.SIMPLE_CLUSTER, LbType: v2.LB_RANDOM}
 	if maxConn != 0 || maxReq != 0 {
 		cc.CirBreThresholds = v2.CircuitBreakers{Thresholds: []v2.Thresholds{{MaxConnections: maxConn, MaxRequests: maxReq}}}
+	}
+	if connectTimeout > 0 {
+		cc.ConnectTimeout = &api.DurationConfig{Duration: connectTimeout}
 	}
 	info := cluster.NewClusterInfo(cc)
 	host := cluster.NewSimpleHost(v2.Host{HostConfig: v2.HostConfig{Address: up.Addr, Hostname: up.Addr, Weight: 1}}, info)
